@@ -234,14 +234,14 @@ def judge_cost(case):
 
 def judge_cputime(case):
     """work done inside C loops (scanning a list of tensors, say) raises no call events; this second cost measure is the CPU time of
-    the calling thread (not wall clock; garbage collector off; minimum of 3 runs) at sizes n, 2n, 4n.  Linear cost doubles the
-    increment, quadratic cost quadruples it; flagged only when the increment more than triples AND the excess over linear is at
-    least 0.2 s of CPU, so scheduling noise cannot trip it."""
+    the calling thread (not wall clock; garbage collector off; minimum of 3 runs) at sizes n and 4n.  Linear cost keeps the cost
+    per operation constant, quadratic cost quadruples it.  Reported only when the cost per operation grows by more than 2.5x AND
+    the larger run exceeds the linear extrapolation by more than 1 s of CPU AND a second, independent measurement says the same -
+    a machine under load inflates CPU time by tens of percent, not by these margins twice in a row."""
     import time, gc
     sg = harness.load(); harness.reset_modes(verify=False)
     kind, n = case["shape"], case["n"]
-    best = []
-    for size in (n, 2 * n, 4 * n):
+    def measure(size):
         ts = []
         for rep in range(3):
             root, nops = _build(sg, kind, size)
@@ -252,18 +252,24 @@ def judge_cputime(case):
             finally:
                 gc.enable()
             root = None
-        best.append(min(ts))
-    d1, d2 = best[1] - best[0], best[2] - best[1]
+        return min(ts)
+    def superlinear(t1, t4):
+        return t4 / 4.0 > 2.5 * max(t1, 1e-9) and t4 - 4.0 * t1 > 1.0
+    t1, t4 = measure(n), measure(4 * n)
+    best = [t1, t4]
     viol = []
-    if d2 > 3.0 * max(d1, 1e-9) and d2 - 2.0 * d1 > 0.2:
-        viol.append({"kind": f"{kind}:superlinear-cpu-time", "detail": f"CPU seconds inside backward for sizes {n},{2 * n},{4 * n}: {[round(b, 3) for b in best]}; "
-                     f"increment ratio {d2 / max(d1, 1e-9):.2f} (linear = 2.0, quadratic = 4.0)"})
+    if superlinear(t1, t4):
+        u1, u4 = measure(n), measure(4 * n)
+        best += [u1, u4]
+        if superlinear(u1, u4):
+            viol.append({"kind": f"{kind}:superlinear-cpu-time", "detail": f"CPU seconds inside backward for sizes {n} and {4 * n}: {t1:.3f} and {t4:.3f} "
+                         f"(second measurement {u1:.3f} and {u4:.3f}); cost per operation grows {t4 / 4 / max(t1, 1e-9):.1f}x (linear = 1.0, quadratic = 4.0)"})
     return {"nontrivial": True, "outcome": "ok", "violations": viol, "_cpu": best}
 
 def judge_heap(case):
     """the cost of backward depends on the graph, not on what else lives in the process: the same chain is back-propagated in a
     lean process and with 3 million unrelated container objects alive (CPU time of the calling thread, minimum of 3).  Reported
-    only when the loaded run costs more than twice the lean one AND at least 0.1 s more (unchanged tree: < 0.01 s more)."""
+    only when the loaded run costs more than twice the lean one AND at least 0.15 s more, twice in a row (unchanged tree: < 0.01 s more)."""
     import time
     sg = harness.load(); harness.reset_modes(verify=False)
     kind, n = case["shape"], case["n"]
@@ -275,14 +281,21 @@ def judge_heap(case):
             t0 = time.thread_time(); root.backward(g); ts.append(time.thread_time() - t0)
             root = None
         return min(ts)
-    lean = measure()
-    junk = [[] for _ in range(3_000_000)]
-    try:
-        loaded = measure()
-    finally:
-        del junk
+    def both():
+        lean = measure()
+        junk = [[] for _ in range(3_000_000)]
+        try:
+            loaded = measure()
+        finally:
+            del junk
+        return lean, loaded
+    bad = lambda lean, loaded: loaded > 2.0 * max(lean, 1e-9) and loaded - lean > 0.15
+    lean, loaded = both()
     viol = []
-    if loaded > 2.0 * max(lean, 1e-9) and loaded - lean > 0.1:
+    if bad(lean, loaded):
+        lean2, loaded2 = both()
+        if not bad(lean2, loaded2): loaded = lean      # not confirmed by an independent second measurement: noise
+    if loaded > 2.0 * max(lean, 1e-9) and loaded - lean > 0.15:
         viol.append({"kind": f"{kind}:cost-depends-on-unrelated-heap", "detail": f"CPU seconds inside backward over {n} operations: {lean:.3f} in a lean process, "
                      f"{loaded:.3f} with 3 million unrelated lists alive"})
     return {"nontrivial": True, "outcome": "ok", "violations": viol, "_cpu": (lean, loaded)}
@@ -308,7 +321,7 @@ def all_cases(tier):
         for n in ((100, 250) if tier == "quick" else (100, 250, 600)):
             out.append({"kind": "cost", "shape": shape, "n": n})
     for shape in ("chain", "chain_retain_each", "chain_built_under_retain_grads", "chain_from_many_leaves", "ladder"):
-        out.append({"kind": "cputime", "shape": shape, "n": 4000 if shape != "ladder" else 2000})
+        out.append({"kind": "cputime", "shape": shape, "n": 5000 if shape != "ladder" else 2500})
     for shape, n in (("chain", 1500), ("chain", 6000), ("tree", 3000)):
         out.append({"kind": "heap", "shape": shape, "n": n})
     return out
